@@ -4,7 +4,7 @@ import numpy as np
 import vlib
 
 CLAIM = {
- "text": "Proof (Lean 4): the bookkeeping schemes the ansaetze use to update variational gates in place are modelled as small state machines over an abstract generator output (ordered list of (Pauli word, coefficient)): word -> gate-index table with rebuild when the key set changes (UCCSD, QCC), per-layer tables with cumulative offsets (UpCCGSD), positional update (HEA, RUCC, VariationalCircuit, VSQS blocks). Proved: starting from any parameter list, the parameter vector of the variational gates after an update equals the one of a fresh build with that generator output, and by induction over the history (theorem history_eq_build) after ANY sequence of updates it equals the fresh build with the LAST output, provided equal key sets list their words in the same order (explicit, satisfiable hypothesis, checked on every generated pair); cumulative offsets are proved to address disjoint consecutive blocks for every number of layers (the non-cumulative offsets the code used before the repair are proved wrong by a 3-layer counterexample); the angle rule 2c / 4pi+2c is shared with C06. The generators themselves (openfermion excitation generators, QCC/ILC screening) are NOT modelled. Tie to the code and oracle: for every built-in ansatz, encoding and ordering the harness replays parameter histories (exact zeros, sign changes, repeats, values beyond 2pi, wrong lengths) and compares the state prepared by the updated circuit with a freshly built one (cirq, overlap 1 - 1e-9), the accepted number of parameters, and the reference state at all-zero parameters.",
+ "text": "Proof (Lean 4): the bookkeeping schemes the ansaetze use to update variational gates in place are modelled as small state machines over an abstract generator output (ordered list of (Pauli word, coefficient)): word -> gate-index table with rebuild when the key set changes (UCCSD, QCC), per-layer tables with cumulative offsets (UpCCGSD), positional update (HEA, RUCC, VariationalCircuit, VSQS blocks). Proved: starting from any parameter list, the parameter vector of the variational gates after an update equals the one of a fresh build with that generator output, and by induction over the history (theorem history_eq_build) after ANY sequence of updates it equals the fresh build with the LAST output, provided equal key sets list their words in the same order (explicit, satisfiable hypothesis, checked on every generated pair); cumulative offsets are proved to address disjoint consecutive blocks for every number of layers (the non-cumulative offsets the code used before the repair are proved wrong by a 3-layer counterexample); the angle rule 2c / 4pi+2c is shared with C06; all-zero parameters: every Pauli-word exponential block emitted with coefficient 0 is proved to act as the identity (both branches of the angle rule), hence a reference preparation followed by any number of such blocks prepares exactly the reference state (theorem all_zero_parameters_reference, corollary of the general Pauli-word theorem of C06). The generators themselves (openfermion excitation generators, QCC/ILC screening) are NOT modelled. Tie to the code and oracle: for every built-in ansatz, encoding and ordering the harness replays parameter histories (exact zeros, sign changes, repeats, values beyond 2pi, wrong lengths) and compares the state prepared by the updated circuit with a freshly built one (cirq, overlap 1 - 1e-9), the accepted number of parameters, and the reference state at all-zero parameters.",
  "note": "Trusted: Lean kernel + standard axioms; cirq simulator; PySCF molecules; openfermion generators.",
  "technique": "Lean 4 invariant proofs over update histories for the bookkeeping state machines + history oracle (updated vs rebuilt state) on the real ansaetze"}
 
